@@ -241,10 +241,21 @@ impl<'a> G<'a> {
                 name = "vector-copy!";
                 let t = v.unwrap_or(any);
                 // the source must not be able to contain the target (no cycles): lower rank or fresh
+                // (the target itself is fine: elements are copied, and overlapping ranges must behave as
+                // if the source were copied to a temporary first)
                 let from = match self.obj('v', t) {
+                    _ if self.rng.chance(1, 4) => format!("o{}", t),
                     Some(j) if self.rng.chance(3, 4) => format!("o{}", j),
                     _ => format!("(vector {} {} {})", scalar(self.rng), scalar(self.rng), scalar(self.rng)),
                 };
+                if from == format!("o{}", t) && self.rng.bool() {
+                    // overlapping ranges within one vector, in both directions
+                    let start = self.rng.range(0, 3);
+                    let len = self.rng.range(1, 4);
+                    let at = start + *self.rng.pick(&[1i64, 1, 2, -1]);
+                    self.tags.push("vector-copy!:overlapping".to_string());
+                    return format!("(vector-copy! o{} {} o{} {} {})", t, at, t, start, start + len);
+                }
                 match self.rng.usize(3) {
                     0 => format!("(vector-copy! o{} {} {})", t, self.idx(), from),
                     1 => format!("(vector-copy! o{} {} {} {})", t, self.idx(), from, self.idx()),
